@@ -18,10 +18,8 @@ git -C $WT apply $OUT/patch.diff
 PYTHONPATH=$WT/src timeout 600 /venv/bin/python OUT/$DEMO > /tmp/seed_$ID.with.log 2>&1; W1=$?
 echo "demo exit without change: $W0 ; with change: $W1"
 cd /verif
-git -C /repo apply $OUT/patch.diff || { echo "PATCH DOES NOT APPLY"; exit 2; }
-bin/xv check $PROP "$@" > /tmp/seed_$ID.check.log 2>&1; RC=$?
-git -C /repo checkout -- .
+# the check analyses the scratch worktree (which carries the change): /repo is not touched
+XV_REPO=$WT bin/xv check $PROP "$@" > /tmp/seed_$ID.check.log 2>&1; RC=$?
 echo "check exit: $RC"
 grep -c "VIOLATION" /tmp/seed_$ID.check.log
 grep "VIOLATION\|INCONCLUSIVE property\|^OK" /tmp/seed_$ID.check.log | head -5
-git -C /repo status --short | head -3
